@@ -299,6 +299,141 @@ def expected_names(row):
     return bad
 
 
+PERM = {1: "c", 2: "a", 3: "b", 4: "y", 5: "x", 6: "zz", 7: "z", 100: "args", 101: "kw"}      # definition order is not name order
+
+
+def more_shapes(row):
+    """Shapes the grid does not hold: parameter names whose definition order is not their alphabetical order; two real
+    parameters injected in one call; falsy defaults for expected parameters; an annotation of its own on every parameter
+    (also on * and **); the options update_dict / inject_to_varkw / hide_wrapped; a wrapper whose async-ness differs from
+    the function's; lambdas and functools.partial objects as the wrapped callable."""
+    import functools
+    from boltons import funcutils
+    sig, mode = row["sig"], row["mode"]
+    bad = []
+
+    def own(w):
+        return [[n, k, d] for n, k, d, _ in params_of(w)]
+
+    def wrapper(*a, **kw):
+        return ("wrapper", a, sorted(kw))
+    if mode == "plain":
+        # 1. permuted names: same kinds and defaults in the same positions, the permuted names
+        f = make_func(sig, False, False, NAME=PERM)
+        try:
+            w = funcutils.wraps(f)(wrapper)
+            if own(w) != own(f):
+                bad.append(("permuted-names", "signature", {"wrapper": own(w), "function": own(f)}))
+            names = [n for n, k, d in own(f) if k in (1, 3)]
+            for drop in names[:2]:
+                f2 = make_func(sig, False, False, NAME=PERM)
+                w2 = funcutils.wraps(f2, injected=[drop])(wrapper)
+                want = [p_ for p_ in own(f2) if p_[0] != drop]
+                # (removing a positional parameter without default in front of ones with defaults is refused or shifts
+                # nothing: compare names and which of them keep a default, by name)
+                if sorted((n, d) for n, k, d in own(w2)) != sorted((n, d) for n, k, d in want):
+                    bad.append(("permuted-names/injected=%s" % drop, "signature", {"wrapper": own(w2), "expected": want}))
+        except Exception as ex:
+            bad.append(("permuted-names", "wraps-raised:" + core.exc_name(ex), str(ex)[:200]))
+        # 2. two real parameters injected in one call
+        f = make_func(sig, False, False)
+        names = [n for n, k, d in own(f) if k in (1, 3)]
+        if len(names) >= 2:
+            for pair in ([names[0], names[-1]], [names[-1], names[0]], names[:2]):
+                if len(set(pair)) < 2:
+                    continue
+                f2 = make_func(sig, False, False)
+                try:
+                    w2 = funcutils.wraps(f2, injected=list(pair))(wrapper)
+                    want = [p_ for p_ in own(f2) if p_[0] not in pair]
+                    if sorted((n, d) for n, k, d in own(w2)) != sorted((n, d) for n, k, d in want) or [n for n, k, d in own(w2)] != [n for n, k, d in want]:
+                        bad.append(("injected=%r" % (pair,), "signature", {"wrapper": own(w2), "expected": want}))
+                except Exception as ex:
+                    bad.append(("injected=%r" % (pair,), "wraps-raised:" + core.exc_name(ex), str(ex)[:200]))
+        # 3. falsy defaults for an expected parameter: it HAS that default
+        if "z" not in names:
+            for dflt in (None, 0, "", (), False):
+                f2 = make_func(sig, False, False)
+                try:
+                    w2 = funcutils.wraps(f2, expected=[("z", dflt)] if dflt != "" else {"z": dflt})(wrapper)
+                    zs = [p_ for p_ in params_of(w2) if p_[0] == "z"]
+                    if len(zs) != 1 or not zs[0][2] or zs[0][3] is not dflt and zs[0][3] != dflt or type(zs[0][3]) is not type(dflt):
+                        bad.append(("expected default %r" % (dflt,), "expected-parameter-wrong", [[p_[0], p_[2], repr(p_[3])] for p_ in zs]))
+                except Exception as ex:
+                    bad.append(("expected default %r" % (dflt,), "wraps-raised:" + core.exc_name(ex), str(ex)[:200]))
+        # 4. an annotation of its own on every parameter, on * and ** and on the return value
+        pos_, kwo_ = [NAME[n] for n in sig["pos"]], [NAME[k["n"]] for k in sig["kwo"]]
+        ann_src = "def target(%s) -> 'ret':\n    return None\n" % ", ".join(
+            ["%s: 'T_%s'%s" % (n, n, " = 1" if i >= len(pos_) - sig["ndef"] else "") for i, n in enumerate(pos_)] +
+            (["*args: 'T_args'"] if sig["star"] else (["*"] if kwo_ else [])) +
+            ["%s: 'T_%s'%s" % (NAME[k["n"]], NAME[k["n"]], " = 2" if k["d"] else "") for k in sig["kwo"]] +
+            (["**kw: 'T_kw'"] if sig["dstar"] else []))
+        ns = {}
+        try:
+            exec(compile(ann_src, "<c13-ann>", "exec"), ns)
+            fa = ns["target"]
+            wa = funcutils.wraps(fa)(wrapper)
+            if dict(wa.__annotations__) != dict(fa.__annotations__) or str(inspect.signature(wa, follow_wrapped=False)) != str(inspect.signature(fa)):
+                bad.append(("annotation per parameter", "signature", {"wrapper": str(inspect.signature(wa, follow_wrapped=False)), "function": str(inspect.signature(fa))}))
+            if pos_:
+                wi = funcutils.wraps(fa, injected=[pos_[0]])(wrapper)
+                # (the statement speaks of the signature; whether __annotations__ still names the removed parameter is not judged)
+                if pos_[0] in inspect.signature(wi, follow_wrapped=False).parameters:
+                    bad.append(("annotation per parameter/injected", "signature", {"annotations": sorted(wi.__annotations__)}))
+        except Exception as ex:
+            bad.append(("annotation per parameter", "wraps-raised:" + core.exc_name(ex), str(ex)[:200]))
+        # 5. options: the own signature is the same under each
+        for label, kw_ in (("update_dict=False", {"update_dict": False}), ("inject_to_varkw=False", {"inject_to_varkw": False}), ("hide_wrapped=True", {"hide_wrapped": True})):
+            f2 = make_func(sig, False, False)
+            f2.marker = "on the function"
+            try:
+                w2 = funcutils.wraps(f2, **kw_)(wrapper)
+                if own(w2) != own(f2) or w2.__name__ != f2.__name__ or w2.__doc__ != f2.__doc__:
+                    bad.append((label, "signature", {"wrapper": own(w2), "function": own(f2)}))
+                elif ("hide_wrapped" in kw_) == hasattr(w2, "__wrapped__"):
+                    bad.append((label, "metadata", "__wrapped__ %s" % ("present" if hasattr(w2, "__wrapped__") else "absent")))
+                elif ("update_dict" in kw_) == (getattr(w2, "marker", None) == "on the function"):
+                    bad.append((label, "metadata", "function attributes %s" % ("copied" if hasattr(w2, "marker") else "not copied")))
+            except Exception as ex:
+                bad.append((label, "wraps-raised:" + core.exc_name(ex), str(ex)[:200]))
+        # 6. async-ness follows the wrapped function, whatever the wrapper is
+        for f_async in (False, True):
+            f2 = make_func(sig, f_async, False)
+            if f_async:
+                def wr(*a, **kw):                       # a plain function handing the coroutine on
+                    return f2(*a, **kw)
+            else:
+                async def wr(*a, **kw):                 # a coroutine function around a plain function
+                    return f2(*a, **kw)
+            try:
+                w2 = funcutils.wraps(f2)(wr)
+                if own(w2) != own(f2) or inspect.iscoroutinefunction(w2) != f_async:
+                    bad.append(("async function=%s, wrapper=%s" % (f_async, not f_async), "signature",
+                                {"wrapper_is_coroutine_function": inspect.iscoroutinefunction(w2), "wrapper": own(w2)}))
+            except Exception as ex:
+                bad.append(("async function=%s, wrapper=%s" % (f_async, not f_async), "wraps-raised:" + core.exc_name(ex), str(ex)[:200]))
+        # 7. a lambda and a functools.partial object as the wrapped callable
+        if not sig["kwo"] and not sig["star"] and not sig["dstar"]:
+            lam = eval("lambda %s: None" % ", ".join("%s%s" % (n, "=1" if i >= len(pos_) - sig["ndef"] else "") for i, n in enumerate(pos_)))
+            try:
+                wl = funcutils.wraps(lam)(wrapper)
+                if own(wl) != own(lam) or wl.__name__ != "<lambda>":
+                    bad.append(("lambda", "signature", {"wrapper": own(wl), "function": own(lam), "name": wl.__name__}))
+            except Exception as ex:
+                bad.append(("lambda", "wraps-raised:" + core.exc_name(ex), str(ex)[:200]))
+            if pos_:
+                f2 = make_func(sig, False, False)
+                part = functools.partial(f2, 5)
+                try:
+                    wp = funcutils.wraps(part)(wrapper)
+                    ref = [[n, KIND[p_.kind], p_.default is not inspect.Parameter.empty] for n, p_ in inspect.signature(part).parameters.items()]
+                    if own(wp) != ref:
+                        bad.append(("functools.partial", "signature", {"wrapper": own(wp), "inspect.signature(partial)": ref}))
+                except Exception as ex:
+                    bad.append(("functools.partial", "wraps-raised:" + core.exc_name(ex), str(ex)[:200]))
+    return bad
+
+
 def argument_forms(row):
     """injected / expected spelt in their other accepted forms (a bare string, a tuple, a mapping), injected and expected
     in one call, update_wrapper called directly (positionally and with func=): always the same own signature."""
@@ -362,7 +497,7 @@ def argument_forms(row):
 
 def run_row(row):
     from boltons import funcutils
-    bad = equalish_defaults(row) + injected_lists(row) + stacked(row) + odd_names(row) + expected_collisions(row) + expected_names(row) + argument_forms(row)
+    bad = equalish_defaults(row) + injected_lists(row) + stacked(row) + odd_names(row) + expected_collisions(row) + expected_names(row) + more_shapes(row) + argument_forms(row)
     sig, mode = row["sig"], row["mode"]
     want_params = [[NAME[p[0]], p[1], p[2]] for p in row["wparams"]]
     seen = row["seen"]
